@@ -30,7 +30,7 @@ def gen_cases(ctx, prop, out):
 
 
 def judge(ctx, prop, records, d):
-    """TLC judges the records; returns (rows, [(row, why list)], notes count)."""
+    """TLC judges the records; returns (rows, [(row, why list)], note payloads [{i, id, tags}])."""
     rows = vlib.read_ndjson(records)
     if not rows:
         raise vlib.HarnessError("no records to judge")
@@ -54,7 +54,7 @@ def judge(ctx, prop, records, d):
                 raise vlib.HarnessError("BAD payload does not match its record: %s" % b)
             out.append((r, b["why"]))
     out.sort(key=lambda t: t[0]["id"])
-    notes = len(vlib.read_ndjson(note)) if os.path.exists(note) else 0
+    notes = vlib.read_ndjson(note) if os.path.exists(note) else []
     return rows, out, notes
 
 
